@@ -300,15 +300,20 @@ def behavioural(res, fact):
         ops = opts.ops or []
         imems = [o for o in ops if type(o).__name__ in ("IMem8", "IMem16", "IMem20")]
         others = [o for o in ops if o not in imems]
-        if len(imems) != 1 or any(type(o).__name__ not in ("Reg", "RegIL", "Imm8", "Imm16", "Imm20", "RegB") for o in others):
+        if len(imems) != 1 or any(type(o).__name__ not in ("Reg", "RegIL", "Imm8", "Imm16", "Imm20", "RegB", "EMemAddr")
+                                  for o in others):
             continue
         if cls.__name__ in ("JP_Abs",):
             continue
         probes.append(opcode)
+    emem_first = {opcode for opcode in probes
+                  if type(((OPCODES[opcode][1] if isinstance(OPCODES[opcode], tuple) else Opts()).ops or [None])[0]).__name__ == "EMemAddr"}
     pcases = []
     for opcode in probes:
         for pre in (0x34, 0x31):
             code = bytes([pre, opcode, n, 0x11, 0x22, 0x03])
+            if opcode in emem_first:       # [lmn] comes first in the encoding, the internal-memory byte last
+                code = bytes([pre, opcode, 0x40, 0x11, 0x02, n])
             mem = dict(base_mem)
             for k, off in enumerate(cands(n).values()):
                 for j in range(3):
@@ -335,11 +340,22 @@ def behavioural(res, fact):
             if any(s_off <= x < s_off + 3 for x in t) and not any(f_off <= x < f_off + 3 for x in t):
                 return "second"
             return None
-        pv = verdict(py_t)
+        def verdict_by_value(writes):
+            # the internal-memory operand is the SOURCE of a store to external memory ([lmn] forms, D8-DB): the planted
+            # bytes are different at every candidate offset, so the stored value names the offset that was read
+            ext = [(a, v) for a, v in writes if a < IMEM]
+            if not ext:
+                return None
+            names = list(c)
+            k = (ext[0][1] - 0x30) // 8
+            if not (0 <= k < len(names)) or (ext[0][1] - 0x30) % 8 != 0:
+                return None
+            return "first" if names[k] == latch.first.value else ("second" if names[k] == latch.second.value else None)
+        pv = verdict(py_t) or verdict_by_value(obs.get("writes", []))
         if pv is not None:
             fact(pv == "first", "single_operand_follows_first_mode", f"{opcode:02X}/{pre:02X}:python",
                  {"behaviour": pv, "in_SINGLE_ADDRESSABLE_OPCODES": table_first})
-        rv = verdict(rs_t)
+        rv = verdict(rs_t) or verdict_by_value([tuple(w) for w in r["steps"][0].get("writes", [])])
         if rv is not None:
             fact(rv == "first", "single_operand_follows_first_mode", f"{opcode:02X}/{pre:02X}:rust", {"behaviour": rv})
         if pv is not None and rv is not None:
